@@ -146,7 +146,7 @@ var strPool = []string{"", "a", "ab", "abc", "key", "value", "name", len19, long
 
 var semvers = []string{"1.0.0", "1.2.3-rc1", "0.0.1+build5", "10.20.30-alpha.1+exp.sha"}
 var semverRanges = []string{">=1.0.0 <2.0.0", "1.x", "~1.2.3", "^1.2", ">1.0.0", "1.0.0 - 2.0.0", ">=1.0.0 <2.0.0 || >=3.0.0", "1.0.0"}
-var uris = []string{"http://example.com/a?b=c#d", "file:///tmp/x", "urn:isbn:0451450523", "mailto:a@b.c", "//host/path", "relative/path", "http://user:pw@host:8080/p%20q", ""}
+var uris = []string{"http://example.com/a?b=c#d", "file:///tmp/x", "urn:isbn:0451450523", "mailto:a@b.c", "//host/path", "relative/path", "http://user:pw@host:8080/p%20q"}
 var regexps = []string{"a.*b", "", "^[a-z]+$", "a/b", `\d+`, "(?i)x", "[[:alpha:]]"}
 var typeExprs = []string{"Integer[1,3]", "Integer", "String", "Array[String]", "Hash[String,Integer]", "Optional[Integer]", "Variant[Integer,String]",
 	"Struct[{a=>Integer}]", "Enum['a','b']", "Tuple[Integer,String]", "Type[Integer]", "Timespan", "Sensitive[String]", "Float[1.0,2.0]", "Any", "Binary", "Array[Hash[String,Array[Integer]],1,3]"}
